@@ -221,7 +221,11 @@ var (
 	issuerOf  map[*x509.Certificate]string
 )
 
+// candSearchFails: the issuer-candidate search itself reports an error (e.g. an AKI form it does not support)
+var candSearchFails bool
+
 func installOCSPWorld(ncand int) {
+	candSearchFails = false
 	resps, httpLog = nil, nil
 	httpScript = map[string]int{}
 	candidates = nil
@@ -248,6 +252,9 @@ func installOCSPWorld(ncand int) {
 		return respBytes(v - 1), nil
 	})
 	verifrt.Override(modRoot+"/core.FindCertificateIssuerCandidates", func(issuer *pkix.RDNSequence, ext *[]pkix.Extension, alg x509.PublicKeyAlgorithm, chains *core.CertificateChains) ([]*core.CertificateChainEntry, error) {
+		if candSearchFails {
+			return nil, verifrt.NewError("unsupported Authority Key Identifier combination")
+		}
 		var out []*core.CertificateChainEntry
 		for _, c := range candidates {
 			out = append(out, &core.CertificateChainEntry{Certificate: c})
